@@ -2158,8 +2158,31 @@ func vRunConc(t *testing.T, out *zzverif.Out, base string, caseLine string, cc *
 	var states []string
 	replaying := len(cc.events) > 0
 	var events []string
+	// Put ‖ Import (L2 only: the model's `Sys` has no inode identity): in a share of the schedules an Import of the TRUE
+	// content by another caller lands at a random point.  It renames a complete temporary file over the name, so every
+	// writer that has the old file open — faulty ones included — goes on writing into an unlinked inode, and every writer
+	// that starts later sees the right size: from that point on the blob must stay complete, whatever the co-writers do.
+	importAt, imported := -1, false
+	if !replaying && !cc.big && r.Chance(1, 6) {
+		importAt = r.Intn(7)
+	}
 	for step := 0; ; step++ {
 		var ev string
+		if step == importAt {
+			got, err := c.Import(bytes.NewReader(cc.content), size)
+			out.Count("conc_import_events")
+			if err != nil || got != d {
+				out.L2("concurrent-import-failed", caseLine+" :: "+cc.line(), fmt.Sprintf("%s after-event=%d err=%v", who, step, err))
+			} else {
+				imported = true
+			}
+		}
+		if imported {
+			if b, _ := os.ReadFile(c.GetFile(d)); !bytes.Equal(b, cc.content) {
+				out.L2("concurrent-import-then-file-changed", caseLine+" :: "+cc.line(), fmt.Sprintf("%s import-before-event=%d now-before-event=%d events=%s file=%s", who, importAt, step, strings.Join(events, ","), zzverif.Hex(b)))
+				imported = false // report once
+			}
+		}
 		if replaying {
 			if step >= len(cc.events) {
 				break
@@ -2237,7 +2260,12 @@ func vRunConc(t *testing.T, out *zzverif.Out, base string, caseLine string, cc *
 			}
 		}
 	}
-	if !cc.big {
+	if importAt >= 0 && importAt < len(events)+1 && !cc.big {
+		out.Count("conc_cases_with_import") // no L1: the oracle's `conc` command has no Import event
+		if b, _ := os.ReadFile(c.GetFile(d)); importAt <= len(events) && !bytes.Equal(b, cc.content) {
+			out.L2("concurrent-import-then-file-changed", caseLine+" :: "+cc.line(), fmt.Sprintf("%s import-before-event=%d final events=%s file=%s", who, importAt, strings.Join(events, ","), zzverif.Hex(b)))
+		}
+	} else if !cc.big {
 		out.Case(cc.line(), strings.Join(states, ",")+" | "+strings.Join(results, ","))
 	}
 	out.Count("cases")
